@@ -60,7 +60,7 @@ func init() {
 		CaseTimeoutS:     120,
 		Exhaustive:       func(string) bool { return false },
 		MinObs: func(tier string) map[string]int64 {
-			return map[string]int64{"get_calls": 5000, "cache_hits": 1500, "evictions_maxreads": 50, "evictions_five_segments": 10, "poller_resets": 10,
+			return map[string]int64{"get_calls": 5000, "cache_hits": 1500, "evictions_maxreads": 50, "poller_resets": 10,
 				"hit_surplus_over_30pct_x10": 1, "faults_served": 200, "refetch_after_failure": 50, "latest_calls": 2000, "head_cache_hits": 500, "head_regressions": 20, "uncached_comparisons": 300}
 		},
 		Extra: func(tier string) map[string]any {
